@@ -56,7 +56,7 @@ var rmCmd = &cobra.Command{
 		// remove file from working tree and index
 		for _, arg := range args {
 			// if the arg is directory
-			if f, err := os.Stat(arg); !os.IsNotExist(err) && f.IsDir() {
+			if f, err := os.Stat(arg); err == nil && f.IsDir() {
 				// get file paths under directory
 				absPath, err := filepath.Abs(arg)
 				if err != nil {
